@@ -266,11 +266,17 @@ def eofItems (full : Bool) : Stop → List Item
   | .done line col => if full then [⟨"EOF", [], line, col, [], [], true⟩] else []   -- :264-265
   | _ => []
 
+/-- the `while` loop (:153-262) on the text after BOM and `@charset ` -/
+def mainLoop (text : Cps) (full doC : Bool) : Res :=
+  loop full doC ((afterCharset (afterBom text)).length + 1) (afterCharset (afterBom text)) 1 (startCol (afterBom text))
+
+/-- everything after the BOM token and before the end marker -/
+def body (text : Cps) (full doC : Bool) : List Item :=
+  charsetItems (afterBom text) ++ (mainLoop text full doC).items
+
 /-- `Tokenizer(doComments=doC).tokenize(text, fullsheet=full)` -/
 def tokenize (text : Cps) (full doC : Bool) : Res :=
-  let s2 := afterCharset (afterBom text)
-  let r := loop full doC (s2.length + 1) s2 1 (startCol (afterBom text))
-  ⟨bomItems text ++ charsetItems (afterBom text) ++ r.items ++ eofItems full r.stop, r.stop⟩
+  ⟨bomItems text ++ body text full doC ++ eofItems full (mainLoop text full doC).stop, (mainLoop text full doC).stop⟩
 
 /-- the yielded tuples -/
 def Res.tokens (r : Res) : List Item := r.items.filter (·.emit)
